@@ -68,10 +68,19 @@ theorem transition_once_quiescent (cfg : Cfg) {c : Conf} (h : Reach cfg c)
 theorem log_is_path (cfg : Cfg) {c : Conf} (h : Reach cfg c) : walk .closed c.sh.hist = some c.sh.st :=
   (reach_inv cfg h).path
 
-/-- Read as a *sequence of calls*, the listener log is **not** always such a path: notifications are delivered
-    after the CAS (`->Open`: after the deadline store; `HalfOpen->Closed`: after the probe-counter reset), so a
-    later transition of another thread can be reported first.  Known finding `listener-order`. -/
-def listener_order_statement : Prop :=
+/-! ### What is NOT claimed under concurrency: the order of listener calls of different threads
+
+The property (C12) says: each transition is performed by one caller and reported exactly once with the correct
+previous state — `transition_once` above.  It makes **no claim about the order in which the listener calls of
+different threads arrive**; the ordered-path claim for the listener log belongs to the *sequential* property C03.
+The three items below only document this boundary (they are not a property violation and not a finding): listeners
+are called after the CAS (`->Open`: after the deadline store; `HalfOpen->Closed`: after the probe-counter reset), so
+a later transition of another thread can be reported first; the CAS history is always a path (`log_is_path`), and the
+listener log coincides with it whenever notifications do not overlap with other threads' steps
+(`listener_order_partial`, which covers the sequential case). -/
+
+/-- (not claimed by C12) "the listener log, read as a sequence of calls, is a path from Closed" -/
+def listener_call_order_not_claimed : Prop :=
   ∀ (cfg : Cfg) (c : Conf), Reach cfg c → (walk .closed c.sh.log).isSome = true
 
 /-- error-count breaker: one failed request trips it; retry timeout 10 ms; probeNum 0 -/
@@ -89,14 +98,17 @@ def orderRun : Conf :=
   run cfg10 (init cfg10 [[.complete 1 true, .tryPass false, .complete 1 false], [.complete 1 true]])
     (sch [0, 0, 0, 0] ++ [.tick 10] ++ sch [0, 0, 0, 0, 0, 0, 0, 1, 1, 1, 1, 0])
 
-theorem listener_order_witness :
+/-- an interleaving in which every transition is reported exactly once with the right prev, nothing is admitted
+    early, and yet the calls arrive in an order that is not a path: documentation, not a violation -/
+theorem listener_calls_can_reorder_example :
     orderRun.sh.log = [⟨.closed, .opened, 0⟩, ⟨.opened, .halfOpen, 0⟩, ⟨.closed, .opened, 1⟩, ⟨.halfOpen, .closed, 0⟩]
       ∧ walk .closed orderRun.sh.log = none ∧ orderRun.sh.early = false := by decide
 
-theorem listener_order_false : ¬ listener_order_statement := by
+/-- …so the sequence reading is not a theorem of the concurrent model (and C12 does not ask for it) -/
+theorem listener_call_order_not_a_theorem : ¬ listener_call_order_not_claimed := by
   intro h
   have h1 := h cfg10 orderRun (run_reachable _ _ _)
-  have h2 := listener_order_witness.2.1
+  have h2 := listener_calls_can_reorder_example.2.1
   rw [h2] at h1
   exact absurd h1 (by decide)
 
